@@ -109,7 +109,7 @@ inductive Outcome where
   | error (cls : ErrClass) (tracksExposed : Option (List (Option String × Int)))
   | panic (kind : PanicKind)
   | wedge
-  deriving Repr
+  deriving Repr, DecidableEq
 
 /-! ## the guards of the source as parameters -/
 
@@ -475,6 +475,20 @@ def fmp4ProcessSegment (F : Flags) (elapsed : Int) (s : FStream) (c : ClientSt) 
       if n > cap then .wedge
       else pure ({ s with procs := some procs }, c2, evs)
 
+/-- the segment loop of one fMP4 stream processor over decoded segments `(dateTime, parts)` -/
+def fmp4Segments (F : Flags) (elapsed : Int) : FStream → ClientSt → List (Option Int × Option Parts) → Res (FStream × ClientSt × List Event)
+  | s, c, [] => .ok (s, c, [])
+  | s, c, (dt, payload) :: rest => do
+    let (s, c, ev) ← fmp4ProcessSegment F elapsed s c dt payload
+    let (s, c, evs) ← fmp4Segments F elapsed s c rest
+    pure (s, c, ev ++ evs)
+
+/-- `run` of one fMP4 stream processor: init, then its segments -/
+def fmp4Path (F : Flags) (elapsed : Int) (isLeading : Bool) (firstIdx : Nat) (init : Option (List InitTrack)) (c : ClientSt)
+    (segs : List (Option Int × Option Parts)) : Res (FStream × ClientSt × List Event) := do
+  let s ← fmp4Start F isLeading (!isLeading) firstIdx init
+  fmp4Segments F elapsed s c segs
+
 /-! ## MPEG-TS -/
 
 inductive TSItem where
@@ -593,12 +607,34 @@ def tsItems (F : Flags) (elapsed : Int) (s : TStream) (dateTime : Option Int) :
         pure (st, c, ev ++ evs)
       else tsItems F elapsed s dateTime st c rest
 
+/-- is this item a call-back of the stream's leading track (the only thing that sets `leadingTrackFound`)? -/
+def isLeadingSample (s : TStream) : TSItem → Bool
+  | .sample track _ _ _ =>
+    match supportedPos s.supported track with
+    | some i => s.registered.getD i false && i == s.leadingIdx
+    | none => false
+  | .decodeError => false
+
 /-- `clientStreamProcessorMPEGTS.processSegment` for a non-nil segment, reader already initialised -/
 def tsProcessSegment (F : Flags) (elapsed : Int) (s : TStream) (st : TSState) (c : ClientSt) (dateTime : Option Int)
     (items : List TSItem) : Res (TSState × ClientSt × List Event) := do
   let (st, c, evs) ← tsItems F elapsed s dateTime { st with leadingTrackFound := false, dateTimeProcessed := false } c items
   if (F.noLeadingDataTS && !st.leadingTrackFound) = true then .error .noLeadingData
   else pure (st, c, evs)
+
+/-- the segment loop of one MPEG-TS stream processor over decoded segments `(dateTime, items)` -/
+def tsSegments (F : Flags) (elapsed : Int) (s : TStream) : TSState → ClientSt → List (Option Int × List TSItem) → Res (TSState × ClientSt × List Event)
+  | st, c, [] => .ok (st, c, [])
+  | st, c, (dt, items) :: rest => do
+    let (st, c, ev) ← tsProcessSegment F elapsed s st c dt items
+    let (st, c, evs) ← tsSegments F elapsed s st c rest
+    pure (st, c, ev ++ evs)
+
+/-- `run` of one MPEG-TS stream processor: reader initialisation on the first segment, then every segment -/
+def tsPath (F : Flags) (elapsed : Int) (isLeading : Bool) (firstIdx : Nat) (kinds : List String) (c : ClientSt)
+    (segs : List (Option Int × List TSItem)) : Res (TSState × ClientSt × List Event) := do
+  let s ← tsStart F isLeading firstIdx kinds
+  tsSegments F elapsed s {} c segs
 
 /-! ## playlists as the downloaders see them; download loops -/
 
